@@ -172,6 +172,19 @@ CHECKS = {
             'are compared. State = (cookies, clean flags, clock, models); the server is stateless.',
             'Trusted: ref/cookie.py (stdlib hmac/hashlib/base64/json); the virtual clock seams.',
             'DESIGN.md section 5, C16'),
+    'C14': ('E1-product-enumerator+E4-fault-enumerator',
+            'bounded-exhaustive enumeration of request paths over a segment alphabet against an in-memory model of a '
+            'generated tree; deviation-bounded injection of filesystem answers at every call position',
+            'Every path of <=3 segments (4 for three configurations; thorough 4/5) over a 19-symbol segment alphabet '
+            '(existing names, ., .., empty, ..., sibling and parent names incl. one sharing the root\'s prefix, pieces of '
+            'the absolute path, encoded-looking names) under 18 configurations (prefix x slash mode x one/two search '
+            'paths, an overlapping fallback static application behind), judged by the model (exact bytes, length, '
+            'Last-Modified, type; escapes refused; secrets never disclosed; plain paths served); conditional requests; '
+            'and for 11 request kinds every single (thorough: every pair of) filesystem call position x '
+            '{ENOENT, EACCES, EIO, EISDIR, isfile->False}.',
+            'Trusted: the model of the generated tree, posixpath.normpath, mimetypes; seams on '
+            'clastic.static.isfile/open/os and the peek read.',
+            'DESIGN.md section 5, C14'),
 }
 
 NOT_YET = 'check not built yet in this revision of /verif (planned: bounded exhaustive exploration, see DESIGN.md section 5)'
